@@ -61,6 +61,8 @@ fn bases() -> &'static Vec<Base> {
                             // the identity spelled out: MAG 1.0 and ANGLE 0.0 are records like any other
                             MElem::Sref { name: "leaf".into(), xy: (9, 8), strans: Some(crate::gen::gds::MStrans { reflected: false, abs_mag: false, abs_angle: false, mag: Some(1.0f64.to_bits()), angle: Some(0.0f64.to_bits()) }), c: MCommon::default() },
                             MElem::Aref { name: "leaf".into(), xy: [(0, 0), (20, 0), (0, 30)], cols: 2, rows: 3, strans: tr.clone(), c: c.clone() },
+                            // an array of a single element is an array all the same
+                            MElem::Aref { name: "leaf".into(), xy: [(5, 5), (15, 5), (5, 15)], cols: 1, rows: 1, strans: None, c: MCommon::default() },
                             MElem::Node { layer: 7, nodetype: 8, xy: vec![(1, 1), (2, 2)], c: c.clone() },
                             MElem::Box { layer: 9, boxtype: 10, xy: [(0, 0), (1, 0), (1, 1), (0, 1), (0, 0)], c: c.clone() },
                         ],
